@@ -60,10 +60,11 @@ example : decodeExtRouter 8 [0,0,0,1, 192,0,2,9, 0,0,0,24, 0,0,0,16] = .err .rtr
     flowRecord [0,0,3,234, 0,0,0,8, 0,0,0,1, 192,0,2,9, 0,0,0,24, 0,0,0,16] = .ok (none, [0,0,0,24, 0,0,0,16]) ∧
     flowRecord [0,0,3,234, 255,255,255,255, 0,0,0,1, 192,0,2,9, 0,0,0,24, 0,0,0,16] = .ok (none, []) := by decide
 
-/-- non-vacuity (F19a): a raw-header record whose sampled header is the F7 witness (802.1Q ethertype in 14
-octets) is consumed — 8 + 16 + 14 + 2 octets — and yields no entry; what follows is left -/
+/-- non-vacuity (F19a, F33): a raw-header record whose sampled header is the F7 witness (802.1Q ethertype in 14
+octets) is consumed — 8 + 16 + 14 + 2 octets — and yields the record's four words without a packet; what follows
+is left -/
 example : flowRecord ([0,0,0,1, 0,0,0,32, 0,0,0,1, 0,0,0,64, 0,0,0,4, 0,0,0,14,
-    2,0,0,0,0,1, 2,0,0,0,0,2, 0x81,0, 0,0] ++ [9, 9]) = .ok (none, [9, 9]) := by decide
+    2,0,0,0,0,1, 2,0,0,0,0,2, 0x81,0, 0,0] ++ [9, 9]) = .ok (some (.raw ⟨1, 64, 4, 14, none⟩), [9, 9]) := by decide
 
 /-- non-vacuity: a well-formed extended-router record decodes -/
 example : decodeExtRouter 16 [0,0,0,1, 192,0,2,9, 0,0,0,24, 0,0,0,16] = .ok (⟨[192,0,2,9], 24, 16⟩, []) := by decide
